@@ -24,10 +24,10 @@ func (p *c10) Exhaustive() bool { return true }
 
 var (
 	c10Kinds   = []string{"include", "embed"}
-	c10Modes   = []string{"plain", "with", "only", "with+only", "with-override", "with-variable+only", "with-variable", "with-conditional", "with-conditional+only", "name-expression-that-assigns", "with-hash-that-assigns", "with-special-keys"}
+	c10Modes   = []string{"plain", "with", "only", "with+only", "with-override", "with-variable+only", "with-variable", "with-conditional", "with-conditional+only", "name-expression-that-assigns", "with-hash-that-assigns", "with-special-keys", "with-keyword-keys", "with-keyword-keys+only"}
 	c10Sites   = []string{"top", "loop", "block-of-extending-host", "macro", "if", "host-block-same-name"}
 	c10Targets = []string{"plain", "sets-colliding", "sets-fresh", "extends-base", "extends-base-sets", "blocks-from-use-only"}
-	c10Pool    = []string{"x", "y", "w", "z", "_context", "_charset"}
+	c10Pool    = []string{"x", "y", "w", "z", "_context", "_charset", "type", "for"}
 )
 
 const c10OverSubsets = 4
@@ -177,6 +177,9 @@ func c10target(ts map[string]*gen.Template, name string, target int, callHost bo
 	}
 }
 
+var c10KeywordKeys = []string{"type", "for", "range", "default", "map", "package", "select", "case", "var", "if", "import", "func", "go", "chan", "const", "defer", "else", "break", "continue", "fallthrough", "goto",
+	"interface", "return", "struct", "switch", "block", "parent", "loop", "in", "is", "only", "not", "and", "true", "null", "é1", "a b", "1", "0x", "-", "", "a.b", "Type", "nil", "iota", "_"}
+
 func c10construct(c c10cfg, tplName string, over int, tag string) gen.Node {
 	var with gen.Expr
 	only := false
@@ -210,6 +213,16 @@ func c10construct(c c10cfg, tplName string, over int, tag string) gen.Node {
 	case 11:
 		// names that mean something in other dialects are keys like any other (only _self is special here)
 		with = &gen.EHash{Keys: []gen.Expr{nm("w"), str("_context"), str("_charset"), str("_key")}, Vals: []gen.Expr{str("ww-" + tag), str("ctx-" + tag), str("cs-" + tag), str("key-" + tag)}}
+	case 12, 13:
+		// a key is a string like any other: words that are reserved somewhere else (in Go, in Twig), words with blanks,
+		// digits, non-ASCII letters, the empty word - each one is a variable of the target (the host has a type of its own)
+		h := &gen.EHash{Keys: []gen.Expr{nm("w")}, Vals: []gen.Expr{str("ww-" + tag)}}
+		for _, k := range c10KeywordKeys {
+			h.Keys = append(h.Keys, str(k))
+			h.Vals = append(h.Vals, str("kw-"+k+"-"+tag))
+		}
+		with = h
+		only = c.mode == 13
 	case 10:
 		with = &gen.EHash{Keys: []gen.Expr{nm("w")}, Vals: []gen.Expr{&gen.EBin{Op: "~", L: &gen.ECall{Fn: "setvar", Args: []gen.Expr{str("x"), str("set-by-with-" + tag)}}, R: str("ww-" + tag)}}}
 	}
@@ -235,7 +248,7 @@ func (p *c10) buildCfg(c c10cfg) *Program {
 	ts := map[string]*gen.Template{}
 	// the host's import alias reaches the target when the host has one (not in sites 2 and 3) and the construct
 	// passes the host's variables on (no 'only')
-	callHost := c.site != 2 && c.site != 3 && (c.mode == 0 || c.mode == 1 || c.mode == 4 || c.mode == 6 || c.mode == 7 || c.mode == 9 || c.mode == 10 || c.mode == 11)
+	callHost := c.site != 2 && c.site != 3 && (c.mode == 0 || c.mode == 1 || c.mode == 4 || c.mode == 6 || c.mode == 7 || c.mode == 9 || c.mode == 10 || c.mode == 11 || c.mode == 12)
 	c10target(ts, "tgt", c.target, callHost)
 	var site []gen.Node
 	site = append(site, c10construct(c, "tgt", c.over, "1"))
@@ -286,7 +299,7 @@ func (p *c10) buildCfg(c c10cfg) *Program {
 		body = append(pre, tx("H("), &gen.NBlock{Name: "bb", Body: []gen.Node{tx("HOSTBB")}}, &gen.NBlock{Name: "ba", Body: append([]gen.Node{tx("HOSTBA(")}, append(site, tx(")"))...)}, tx(")"))
 	}
 	ts["main"] = tpl("main", body...)
-	prog := &Program{Templates: ts, Main: "main", Ctx: map[string]interface{}{"w": "ctxw", "vars": c10vars(c.over + c.target + c.site)}}
+	prog := &Program{Templates: ts, Main: "main", Ctx: map[string]interface{}{"w": "ctxw", "type": "ctx-type", "vars": c10vars(c.over + c.target + c.site)}}
 	if style := (c.over + 2*c.twice + 3*c.target + 5*c.site + 7*c.mode) % 5; style == 4 {
 		// a backslash is a character of a name like any other: "rows\\tgt" is not "rows/tgt" (which exists and says DECOY)
 		names := map[string]string{}
